@@ -246,8 +246,37 @@ func verifC01Text(v vsx) string {
 	return sb.String()
 }
 
-// TestVerifDump: for every line ("dump" id run-name cl sv config-text (patterns)) of $VERIF_CASES writes
-// ("c01.real" id run-name cl sv config-text (patterns) features includes excludes (suites)) to $VERIF_OUT.
+// the permutations a run of the given configuration announces, each with the axis values of its request
+func verifC01Universe(cfgData []byte, suites map[string]*conformancev1.TestSuite, cl, sv bool) ([]vsx, error) {
+	cases, err := parseConfig("verif.yaml", cfgData)
+	if err != nil {
+		return nil, err
+	}
+	mode := conformancev1.TestSuite_TEST_MODE_UNSPECIFIED
+	switch {
+	case sv && !cl:
+		mode = conformancev1.TestSuite_TEST_MODE_CLIENT
+	case cl && !sv:
+		mode = conformancev1.TestSuite_TEST_MODE_SERVER
+	}
+	lib, err := newTestCaseLibrary(suites, cases, mode)
+	if err != nil {
+		return nil, err
+	}
+	all := lib.allPermutations(cl, sv)
+	sort.Slice(all, func(i, j int) bool { return all[i].Request.TestName < all[j].Request.TestName })
+	rows := make([]vsx, 0, len(all))
+	for _, tc := range all {
+		r := tc.Request
+		rows = append(rows, vL(vS(r.TestName), vI(int64(r.HttpVersion)), vI(int64(r.Protocol)), vI(int64(r.Codec)),
+			vI(int64(r.Compression)), vBool(len(r.ServerTlsCert) > 0), vBool(r.ClientTlsCreds != nil), vI(int64(r.StreamType))))
+	}
+	return rows, nil
+}
+
+// TestVerifDump: for every line ("dump" id run-name cl sv config-text (patterns) [(((run patterns) (no-run patterns))...)]) of
+// $VERIF_CASES writes ("c01.real" id run-name cl sv config-text (patterns) features includes excludes (suites) [selections])
+// to $VERIF_OUT; for every line ("universe" id run-name cl sv config-text) the rows of verifC01Universe.
 func TestVerifDump(t *testing.T) {
 	in, out := os.Getenv("VERIF_CASES"), os.Getenv("VERIF_OUT")
 	if in == "" || out == "" {
@@ -273,14 +302,31 @@ func TestVerifDump(t *testing.T) {
 		}
 		p := &vparser{s: line}
 		c := p.item()
-		if c.k != 'l' || len(c.l) != 7 {
+		if c.k == 'l' && len(c.l) == 6 && c.l[0].str() == "universe" {
+			// ("universe" id run-name cl sv config-text): one line (name v p c z tls certs) per permutation of
+			// allPermutations, taken from the fields of the REQUEST that would be sent (not from its name)
+			rows, err := verifC01Universe(c.l[5].b, suites, c.l[3].boolean(), c.l[4].boolean())
+			if err != nil {
+				t.Fatalf("universe of %s: %v", c.l[2].str(), err)
+			}
+			for _, r := range rows {
+				vL(vS("row"), c.l[1], r).print(&sb)
+				sb.WriteByte('\n')
+			}
+			continue
+		}
+		if c.k != 'l' || (len(c.l) != 7 && len(c.l) != 8) {
 			t.Fatalf("bad dump line: %s", line)
 		}
 		fe, inc, exc, err := verifC01EncConfig(c.l[5].b)
 		if err != nil {
 			t.Fatalf("config of %s: %v", c.l[2].str(), err)
 		}
-		vL(vS("c01.real"), c.l[1], c.l[2], c.l[3], c.l[4], c.l[5], c.l[6], fe, inc, exc, ss).print(&sb)
+		items := []vsx{vS("c01.real"), c.l[1], c.l[2], c.l[3], c.l[4], c.l[5], c.l[6], fe, inc, exc, ss}
+		if len(c.l) == 8 { // + (((run patterns) (no-run patterns))...)
+			items = append(items, c.l[7])
+		}
+		vL(items...).print(&sb)
 		sb.WriteByte('\n')
 	}
 	if err := os.WriteFile(out, []byte(sb.String()), 0o644); err != nil {
@@ -313,11 +359,12 @@ type verifC01Plan struct {
 	allPerms []*conformancev1.TestCase
 	kf       *testTrie
 	patOK    bool
+	filtered int // filteredTestCount: what newResults is told
 }
 
 // the part of run() before any process is started: mode, library, allPermutations, pattern validation,
 // the client x server x instance loops with the gRPC filter
-func verifC01PlanRun(cfgData []byte, suites map[string]*conformancev1.TestSuite, cl, sv bool, patterns []string) (*verifC01Plan, vsx) {
+func verifC01PlanRun(cfgData []byte, suites map[string]*conformancev1.TestSuite, cl, sv bool, patterns, runPats, skipPats []string) (*verifC01Plan, vsx) {
 	cases, err := parseConfig("verif.yaml", cfgData)
 	if err != nil {
 		return nil, vErr("config")
@@ -344,19 +391,39 @@ func verifC01PlanRun(cfgData []byte, suites map[string]*conformancev1.TestSuite,
 			plan.patOK = false
 		}
 	}
+	// --run / --skip as Run() hands them over: parsePatterns gives nil for an empty list
+	run, skip := parsePatterns(runPats), parsePatterns(skipPats)
+	if run != nil {
+		if _, err := tryMatchPatterns("run patterns", run, plan.allPerms); err != nil {
+			plan.patOK = false
+		}
+	}
+	if skip != nil {
+		if _, err := tryMatchPatterns("no-run patterns", skip, plan.allPerms); err != nil {
+			plan.patOK = false
+		}
+	}
+	filter := newFilter(run, skip)
+	for _, tc := range plan.allPerms {
+		if filter.accept(tc) {
+			plan.filtered++
+		}
+	}
 	seen := map[string]struct{}{}
 	dup := false
 	for _, ci := range verifC01Peers(cl) {
 		for _, si := range verifC01Peers(sv) {
 			for _, inst := range serverInstancesSlice(lib, true) {
 				tcs := lib.filterGRPCImplTestCases(lib.casesByServer[inst], ci, si)
-				for _, tc := range tcs {
+				for _, tc := range tcs { // names must be unambiguous before any selection
 					name := tc.Request.TestName
 					if _, ok := seen[name]; ok {
 						dup = true
 					}
 					seen[name] = struct{}{}
-					plan.sent = append(plan.sent, name)
+				}
+				for _, tc := range filter.apply(tcs) {
+					plan.sent = append(plan.sent, tc.Request.TestName)
 				}
 			}
 		}
@@ -373,7 +440,7 @@ func verifC01Sorted(names []string) vsx {
 	return vStrs(out)
 }
 
-// ("c01.run" id cl sv features includes excludes (suites) (patterns) ((name-suffix code)...))
+// ("c01.run" id cl sv features includes excludes (suites) (patterns) ((name-suffix code)...) [(run patterns) (no-run patterns)])
 func verifC01Run(args []vsx) vsx {
 	cl, sv := args[0].boolean(), args[1].boolean()
 	cfg := verifC01Config(args[2], args[3], args[4])
@@ -385,7 +452,11 @@ func verifC01Run(args []vsx) vsx {
 	for i, s := range args[5].l {
 		suites[string(rune('a'+i/26))+string(rune('a'+i%26))+".yaml"] = verifC01Suite(s)
 	}
-	plan, bad := verifC01PlanRun(data, suites, cl, sv, args[6].strs())
+	var runPats, skipPats []string
+	if len(args) >= 10 {
+		runPats, skipPats = args[8].strs(), args[9].strs()
+	}
+	plan, bad := verifC01PlanRun(data, suites, cl, sv, args[6].strs(), runPats, skipPats)
 	if plan == nil {
 		return bad
 	}
@@ -399,7 +470,7 @@ func verifC01Run(args []vsx) vsx {
 		return 0
 	}
 	// newResults + one setOutcome per sent case + report(), as run()/Run() do
-	results := newResults(len(plan.allPerms), plan.kf, &testTrie{}, nil)
+	results := newResults(plan.filtered, plan.kf, &testTrie{}, nil)
 	for _, name := range plan.sent {
 		switch codeOf(name) {
 		case 1:
@@ -427,10 +498,10 @@ func verifC01Run(args []vsx) vsx {
 		status = 1
 	}
 	return vL(vS("ok"), verifC01Sorted(plan.sent), verifC01Sorted(plan.marked),
-		vInt(plan.lib), vInt(plan.groups), vInt(len(plan.allPerms)), vI(status))
+		vInt(plan.lib), vInt(plan.groups), vInt(len(plan.allPerms)), vInt(plan.filtered), vI(status))
 }
 
-// ("c01.real" id run-name cl sv config-text (patterns) features includes excludes (suites)):
+// ("c01.real" id run-name cl sv config-text (patterns) features includes excludes (suites) [(((run patterns) (no-run patterns))...)]):
 // answered from the REAL embedded suites and the configuration text; the encodings in the case are
 // only checked to be the current projection of those inputs (otherwise: bad-case).
 func verifC01Real(args []vsx) vsx {
@@ -447,7 +518,33 @@ func verifC01Real(args []vsx) vsx {
 		verifC01Text(exc) != verifC01Text(args[7]) || verifC01Text(verifC01EncSuites(suites)) != verifC01Text(args[8]) {
 		return vL(vS("bad-case"))
 	}
-	plan, bad := verifC01PlanRun(args[3].b, suites, cl, sv, args[4].strs())
+	if len(args) >= 10 {
+		// slices: the same run under several (--run, --skip) selections -> (ok slice... (patterns-ok...))
+		out := []vsx{vS("ok")}
+		var oks []vsx
+		for _, sel := range args[9].l {
+			plan, bad := verifC01PlanRun(args[3].b, suites, cl, sv, args[4].strs(), sel.l[0].strs(), sel.l[1].strs())
+			if plan == nil {
+				return bad
+			}
+			mark := parsePatterns(args[4].strs())
+			for _, name := range plan.sent {
+				if mark != nil && mark.matchPattern(name) {
+					plan.marked = append(plan.marked, name)
+				}
+			}
+			out = append(out, vL(verifC01Sorted(plan.sent), verifC01Sorted(plan.marked),
+				vInt(plan.lib), vInt(plan.groups), vInt(len(plan.allPerms)), vInt(plan.filtered)))
+			oks = append(oks, vBool(plan.patOK))
+		}
+		if len(args[9].l) == 0 { // the configuration / library errors show without any selection, too
+			if plan, bad := verifC01PlanRun(args[3].b, suites, cl, sv, args[4].strs(), nil, nil); plan == nil {
+				return bad
+			}
+		}
+		return vL(append(out, vL(oks...))...)
+	}
+	plan, bad := verifC01PlanRun(args[3].b, suites, cl, sv, args[4].strs(), nil, nil)
 	if plan == nil {
 		return bad
 	}
@@ -458,5 +555,5 @@ func verifC01Real(args []vsx) vsx {
 		}
 	}
 	return vL(vS("ok"), verifC01Sorted(plan.sent), verifC01Sorted(plan.marked),
-		vInt(plan.lib), vInt(plan.groups), vInt(len(plan.allPerms)), vBool(plan.patOK))
+		vInt(plan.lib), vInt(plan.groups), vInt(len(plan.allPerms)), vInt(plan.filtered), vBool(plan.patOK))
 }
